@@ -59,24 +59,27 @@ CALLS = ["greedy", "greedy_satprof", "maxwelfare", "mes", "mes_satprof", "mes_ir
          "phragmen_irr", "completion", "completion_irr", "increase", "increase_irr", "increase_phragmen",
          "popularity", "swc", "satprofile", "sat_calls", "stats", "jr", "priceable", "project_loss",
          "eff_support", "eff_supports", "cohesive", "validate_price", "greedy_analytics", "mes_analytics",
-         "mes_skipped", "mes_skipped_plain"]
+         "mes_skipped", "mes_skipped_plain", "phragmen_loads", "phragmen_loads_irr", "completion_phragmen",
+         "priceable_payments"]
 ENTRY = {"greedy": E_GREEDY, "greedy_satprof": E_GREEDY, "maxwelfare": E_MAXW, "mes": E_MES, "mes_satprof": E_MES,
          "mes_irr": E_MES, "mes_iter": E_MESIT, "phragmen": E_PHRAG, "phragmen_irr": E_PHRAG, "completion": E_COMPL,
          "completion_irr": E_COMPL, "increase": E_INCR, "increase_irr": E_INCR, "increase_phragmen": E_INCR,
          "popularity": E_POP, "swc": E_SWC, "satprofile": E_SAT, "sat_calls": E_SAT, "stats": E_RO, "jr": E_RO,
          "priceable": E_RO, "project_loss": E_LOSS, "eff_support": E_EFFS, "eff_supports": E_EFFSS,
          "cohesive": E_RO, "validate_price": E_RO, "greedy_analytics": E_GREEDY, "mes_analytics": E_MES,
-         "mes_skipped": E_MES, "mes_skipped_plain": E_MES}
+         "mes_skipped": E_MES, "mes_skipped_plain": E_MES, "phragmen_loads": E_PHRAG, "phragmen_loads_irr": E_PHRAG,
+         "completion_phragmen": E_COMPL, "priceable_payments": E_RO}
 # how the shared initial allocation is built: a plain list, a BudgetAllocation without details, the outcome of an
 # earlier analytics=True run (its details object is then caller-owned state), or a BudgetAllocation with fresh
 # details of either kind
 INIT_KINDS = ["list", "list", "list", "ba_plain", "greedy_run", "greedy_run", "mes_run", "mes_run", "manual_greedy",
               "manual_mes"]
 ANALYTICS_CALLS = ["greedy_analytics", "greedy_analytics", "mes_analytics", "mes_skipped", "mes_skipped_plain"]
-SOLVER_CALLS = {"priceable"}
+SOLVER_CALLS = {"priceable", "priceable_payments"}
 # keys a caller may put into a parameter dictionary (Equal Shares / greedy) resp. into Phragmen's
 PKEYS = ["initial_budget_allocation", "resoluteness", "tie_breaking", "analytics", "sat_profile"]
-PPKEYS = ["initial_budget_allocation", "resoluteness", "tie_breaking"]
+PPKEYS = ["initial_budget_allocation", "resoluteness", "tie_breaking", "initial_loads"]
+LOADS_CALLS = ["phragmen_loads", "phragmen_loads", "phragmen_loads_irr", "increase_phragmen", "completion_phragmen"]
 WRAPPER_CALLS = ["increase", "increase", "increase_irr", "increase_phragmen", "completion", "completion_irr",
                  "popularity", "swc", "eff_support", "eff_supports"]
 
@@ -137,6 +140,15 @@ def gen(rng, i, tier):
         pkeys = sorted(pkeys + ["initial_budget_allocation"])
     if i % 3 == 0:
         calls[rng.randrange(k)] = rng.choice(WRAPPER_CALLS)
+    ppkeys = keyset(PPKEYS)
+    if i % 4 == 2:
+        # the caller-owned initial_loads list of Phragmen: passed directly and through the wrappers' dictionaries
+        j = rng.randrange(k)
+        calls[j] = rng.choice(LOADS_CALLS)
+        if calls[j] in ("increase_phragmen", "completion_phragmen") and "initial_loads" not in ppkeys:
+            ppkeys = sorted(ppkeys + ["initial_loads"])
+        if k > 1:
+            calls[(j + 1) % k] = rng.choice(LOADS_CALLS + ["phragmen", "phragmen_irr"])
     init_kind = rng.choice(INIT_KINDS)
     if init_kind != "list" and rng.random() < 0.7:
         calls[rng.randrange(k)] = rng.choice(ANALYTICS_CALLS)
@@ -152,9 +164,10 @@ def gen(rng, i, tier):
             "multi": rng.random() < 0.4, "init": sorted(init), "alloc": sorted(alloc),
             "sat": rng.choice(["cost", "card"]), "calls": calls,
             "step": pb.qs(rng.choice([Fraction(1), Fraction(1, 2), B / 4])),
-            "pkeys": pkeys, "plkeys": [keyset(PKEYS, 0.12), keyset(PKEYS, 0.12)], "ppkeys": keyset(PPKEYS),
+            "pkeys": pkeys, "plkeys": [keyset(PKEYS, 0.12), keyset(PKEYS, 0.12)], "ppkeys": ppkeys,
             "pinit": sorted(pinit), "pres": rng.random() < 0.5, "panalytics": rng.random() < 0.5,
             "init_kind": init_kind,
+            "loads": [pb.qs(rng.choice([0, 0, 1, 1, Fraction(1, 2), Fraction(1, 3), 2])) for _ in range(n)],
             "explicit_init": rng.random() < 0.5, "explicit_res": rng.choice([None, None, True, False]),
             "solver": any(c in SOLVER_CALLS for c in calls)}
 
@@ -205,12 +218,21 @@ def snapshot(obj, seen=None):
         kids.append(("items", [snapshot(x, seen) for x in obj]))
     elif isinstance(obj, (set, frozenset)):
         # the iteration order of a set is not part of the caller's view; elements are identified by their own tree
-        kids.append(("elems", sorted((snapshot(x, dict(seen)) for x in obj), key=repr)))
+        # (the projects of an Instance in full; inside ballots and as dictionary keys by name and cost -- they are the
+        # instance's own Project objects, whose attributes are snapshotted there)
+        full = type(obj).__name__ == "Instance"
+        kids.append(("elems", sorted((snapshot(x, dict(seen)) if full else _key(x, seen) for x in obj), key=repr)))
     elif isinstance(obj, dict):
-        items = [(snapshot(k_, dict(seen)), k_) for k_ in obj]
+        items = [(_key(k_, seen), k_) for k_ in obj]
         items.sort(key=lambda t: repr(t[0]))
         kids.append(("entries", [("kv", [ks, snapshot(obj[k_], seen)]) for ks, k_ in items]))
     return (tname, kids)
+
+
+def _key(x, seen):
+    if type(x).__name__ == "Project":
+        return ("proj", [("s", "str:" + str(x.name)), snapshot(x.cost)])
+    return snapshot(x, dict(seen))
 
 
 class Interner:
@@ -271,6 +293,14 @@ def build(case):
             init = BudgetAllocation(init, details=MESAllocationDetails([1 for _ in case["ballots"]]))
     from pabutools.tiebreaking import lexico_tie_breaking
 
+    # one load per ballot object of the profile (len(prof): distinct ballots for a multiprofile)
+    ld = case.get("loads", [])
+    loads = [pb.num(ld[j]) if j < len(ld) else 0 for j in range(len(prof))]
+    from pabutools.rules import greedy_utilitarian_welfare as _g, sequential_phragmen as _p
+    rule_seq = [method_of_equal_shares, _g]
+    rule_seq2 = [method_of_equal_shares, _p]
+    pay = [{p: 0 for p in inst} for _ in prof]
+
     def mk(keys):
         d = {"sat_class": sat}
         for k_ in keys:
@@ -285,8 +315,8 @@ def build(case):
             elif k_ == "sat_profile":
                 d.pop("sat_class", None)
                 d[k_] = satprof
-            elif k_ == "skipped_project":
-                d[k_] = None
+            elif k_ == "initial_loads":
+                d[k_] = loads
         return d
 
     params = mk(case.get("pkeys", []))
@@ -296,10 +326,12 @@ def build(case):
     pparams = mk(case.get("ppkeys", []))
     pparams.pop("sat_class", None)
     return {"inst": inst, "projs": projs, "prof": prof, "satprof": satprof, "init": init, "params": params,
-            "alloc": alloc, "params_list": params_list, "pparams": pparams, "sat": sat}
+            "alloc": alloc, "params_list": params_list, "pparams": pparams, "loads": loads, "rule_seq": rule_seq,
+            "rule_seq2": rule_seq2, "pay": pay, "sat": sat}
 
 
-SHARED = ["inst", "prof", "satprof", "init", "params", "alloc", "params_list", "pparams"]
+SHARED = ["inst", "prof", "satprof", "init", "params", "alloc", "params_list", "pparams", "loads", "rule_seq",
+          "rule_seq2", "pay"]
 
 
 def ans(x):
@@ -392,11 +424,20 @@ def do_call(name, o, case):
         return direct(sequential_phragmen, pparams, initial_budget_allocation=init)
     if name == "phragmen_irr":
         return direct(sequential_phragmen, pparams, initial_budget_allocation=init, resoluteness=False)
+    if name == "phragmen_loads":
+        return direct(sequential_phragmen, pparams, initial_budget_allocation=init, initial_loads=o["loads"])
+    if name == "phragmen_loads_irr":
+        return direct(sequential_phragmen, pparams, initial_budget_allocation=init, initial_loads=o["loads"],
+                      resoluteness=False)
+    if name == "completion_phragmen":
+        # Equal Shares completed by Phragmen, whose dictionary may carry the caller's initial_loads
+        pp = [plist[0], {k_: v for k_, v in pparams.items() if k_ in ("tie_breaking", "initial_loads")}]
+        return completion_by_rule_combination(inst, prof, o["rule_seq2"], pp, initial_budget_allocation=xi, **xr)
     if name == "completion":
-        return completion_by_rule_combination(inst, prof, [method_of_equal_shares, greedy_utilitarian_welfare], plist,
+        return completion_by_rule_combination(inst, prof, o["rule_seq"], plist,
                                               initial_budget_allocation=xi, **xr)
     if name == "completion_irr":
-        return completion_by_rule_combination(inst, prof, [method_of_equal_shares, greedy_utilitarian_welfare], plist,
+        return completion_by_rule_combination(inst, prof, o["rule_seq"], plist,
                                               initial_budget_allocation=xi, resoluteness=False)
     if name == "increase":
         return exhaustion_by_budget_increase(inst, prof, method_of_equal_shares, params, initial_budget_allocation=xi,
@@ -409,10 +450,10 @@ def do_call(name, o, case):
                                              budget_step=step, exhaustive_stop=False,
                                              budget_bound=inst.budget_limit + 3 * step, **xr)
     if name == "popularity":
-        return popularity_comparison(inst, prof, sat, [method_of_equal_shares, greedy_utilitarian_welfare], plist,
+        return popularity_comparison(inst, prof, sat, o["rule_seq"], plist,
                                      initial_budget_allocation=xi)
     if name == "swc":
-        return social_welfare_comparison(inst, prof, sat, [method_of_equal_shares, greedy_utilitarian_welfare], plist,
+        return social_welfare_comparison(inst, prof, sat, o["rule_seq"], plist,
                                          initial_budget_allocation=xi)
     if name == "satprofile":
         sp = prof.as_sat_profile(sat)
@@ -435,14 +476,17 @@ def do_call(name, o, case):
                 jr.is_EJR_one_approval(inst, prof, sat, alloc), jr.is_strong_EJR_approval(inst, prof, sat, alloc),
                 jr.is_PJR_any_approval(inst, prof, sat, alloc)]
     if name == "cohesive":
-        return [len(list(coh.cohesive_groups(inst, prof)))]
+        return [len(list(coh.cohesive_groups(inst, prof))), len(list(coh.cohesive_groups(inst, prof, alloc)))]
     if name == "priceable":
         r = an.priceable(inst, prof, alloc)
         return bool(r.validate()) if r.validate() is not None else None
     if name == "validate_price":
         nv = max(1, prof.num_ballots())
-        pay = [{p: 0 for p in inst} for b in prof]
-        return an.validate_price_system(inst, prof, alloc, pb.num(pb.F(case["budget"]) / nv), pay)
+        return an.validate_price_system(inst, prof, alloc, pb.num(pb.F(case["budget"]) / nv), o["pay"])
+    if name == "priceable_payments":
+        nv = max(1, prof.num_ballots())
+        r = an.priceable(inst, prof, alloc, pb.num(pb.F(case["budget"]) / nv), o["pay"])
+        return str(r.status)
     if name == "project_loss":
         kw = dict(params)
         kw.update({"analytics": True, "resoluteness": True})
